@@ -131,7 +131,7 @@ def _run_one(v, case, scratch, i):
     # structure triggers for signatures
     named_multi = False
     datasets = {}
-    for li in (True, False):
+    for li in ((True, False) if i % 2 == 0 else (False, True)):  # both orders: nothing computed for one setting may leak into the other
         for how in ("results", "folder"):
             try:
                 with quiet():
@@ -227,6 +227,14 @@ def _run_one(v, case, scratch, i):
                     if r not in da.coords:
                         # zipped inputs: one coordinate named by the ':'-joined names (any order) holding the zipped tuples
                         joined = [str(cn) for cn in da.coords if r in str(cn).split(":") and ":" in str(cn)]
+                        partners = sorted(r2 for r2, a2 in deps[o] if a2 == a and r2 != r)
+                        if not partners and not li:
+                            # nothing is zipped with r along this axis for THIS output (and intermediates are not used as
+                            # coordinates with load_intermediate=False): r must label the axis on its own
+                            v.bad(f"coordinate-missing/load_intermediate={li}" + ("/only-inside-a-zipped-coordinate" if joined else ""),
+                                  f"{o} depends on 1-D input {r} alone along {a} but has no plain coordinate {r}",
+                                  coords=sorted(map(str, da.coords)), **w)
+                            continue
                         if not joined:
                             v.bad(f"coordinate-missing/load_intermediate={li}", f"{o} depends on 1-D input {r} along {a} but has no coordinate {r}",
                                   coords=sorted(map(str, da.coords)), **w)
